@@ -40,6 +40,7 @@ class Harness:
                          for s in itertools.combinations(range(L), k)] + ['unknown']
         sel = subs[c.choose(len(subs), 'vrs')]
         m = SymMgr(N, 0, L, with_cache=True)
+        m.decl = 'choose'
         m.assume_pre()
         bdd = m.install(self.B)
         st0, st, den, ext = m.st0, m.st, m.den, m.ext
